@@ -685,16 +685,21 @@ def main():
     if const_defs:
         share = const_val / const_defs
         chk.extra["share_of_constant_definitions_covered_by_value"] = round(share, 4)
+        chk.count("constant-valued definitions", const_defs)
+        chk.count("constant-valued definitions covered by value", const_val)
         chk.extra["nonvacuous_floor"] = NONVACUOUS_FLOOR
         if share < NONVACUOUS_FLOOR and not rp:
             chk.note_inconclusive(f"only {share:.2%} of constant-valued definitions are covered by value (floor {NONVACUOUS_FLOOR:.0%}): cover holds mostly vacuously")
     if not rp:
-        chk.require("definitions covered by value / allocation site", 2000 if not thorough else 50000)
-        chk.require("object definitions covered by allocation site and members", 200 if not thorough else 5000)
-        chk.require("folds whose evaluated text and result were checked", 150 if not thorough else 4000)
-        chk.require("evaluations entered (exec audit events)", 150 if not thorough else 4000)
-        chk.require("metamorphic pairs compared", 40 if not thorough else 1000)
-        chk.require("compute_stmt_states calls recorded", 10000)
+        # floors: about half of what seeds 0-2 measured on the healthy tree (quick: 5485 / 1361 / 2036 / 11426 / 181 / 42471;
+        # thorough: 134437 / 34658 / 145717 / 158856 / 1528 / 579490)
+        chk.require("definitions covered by value / allocation site", 2500 if not thorough else 60000)
+        chk.require("object definitions covered by allocation site and members", 600 if not thorough else 15000)
+        chk.require("folds whose evaluated text and result were checked", 1000 if not thorough else 60000)
+        # (no floor on strict_eval / exec events: a tree that evaluates no text at all is the best possible outcome; the deciding
+        #  hook for the core's literal handling is compute_two_states, counted by the floor above)
+        chk.require("metamorphic pairs compared", 80 if not thorough else 700)
+        chk.require("compute_stmt_states calls recorded", 15000 if not thorough else 250000)
         chk.require("explosive-literal programs analysed", 4)
         if progs:
             chk.sample({"program": progs[0].text, "hostile_literals": progs[0].literals[:4]})
